@@ -86,7 +86,7 @@ func genC04(t *rapid.T) C04Case {
 	c.Cfg.Localhost = rapid.SampledFrom([]string{"deny", "deny", "allow"}).Draw(t, "localhost")
 	c.Cfg.TimeFrame = rapid.SampledFrom([]string{"", "", "in", "out", "gap", "edge-in", "split-in"}).Draw(t, "timeframe")
 	c.Cfg.MITM = rapid.IntRange(0, 3).Draw(t, "mitm") == 0
-	if c.Cfg.Auth != "" && (c.Cfg.TimeFrame == "" || c.Cfg.TimeFrame == "in") && rapid.IntRange(0, 3).Draw(t, "crowd") == 0 {
+	if c.Cfg.Auth != "" && (c.Cfg.TimeFrame == "" || c.Cfg.TimeFrame == "in") && rapid.Bool().Draw(t, "crowd1") && rapid.Bool().Draw(t, "crowd2") && rapid.Bool().Draw(t, "crowd3") {
 		c.Crowd = rapid.SampledFrom([]int{2, 4, 8}).Draw(t, "crowdsize")
 	}
 	n := rapid.IntRange(1, 4).Draw(t, "nreqs")
@@ -477,6 +477,8 @@ func (e *c04Env) snapshot(p *ProxyInst) activity {
 
 var c04CrowdSeq atomic.Int64
 
+const c04CrowdHost = "crowd.test"
+
 // c04Crowd: clients with the right credentials and clients with wrong ones (same user, a password of the same length; and
 // another user of the same length) send requests to an allowed site at the same moment, each over its own connection.
 func c04Crowd(e *c04Env, px *ProxyInst, c C04Case) (fails []vstat.Failure) {
@@ -487,8 +489,8 @@ func c04Crowd(e *c04Env, px *ProxyInst, c C04Case) (fails []vstat.Failure) {
 		return string(b)
 	}
 	id := c04CrowdSeq.Add(1)
-	hostport := "allowed.test:" + e.named.Port
-	x := refDecide(e, c.Cfg, C04Req{Kind: "abs", Method: "GET", Host: "allowed.test", Cred: "exact"})
+	hostport := c04CrowdHost + ":" + e.named.Port // a name of its own: what the transport still does for the crowd later is recognisable
+	x := refDecide(e, c.Cfg, C04Req{Kind: "abs", Method: "GET", Host: c04CrowdHost, Cred: "exact"})
 	if len(x.codes) > 0 {
 		return nil // some other control refuses this site right now: nothing to learn here
 	}
@@ -497,7 +499,7 @@ func c04Crowd(e *c04Env, px *ProxyInst, c C04Case) (fails []vstat.Failure) {
 		n     int
 		fail  *vstat.Failure
 	}
-	const perClient = 25
+	const perClient = 10
 	res := make(chan outcome, 2*c.Crowd)
 	start := make(chan struct{})
 	for k := 0; k < 2*c.Crowd; k++ {
@@ -578,6 +580,17 @@ func c04Crowd(e *c04Env, px *ProxyInst, c C04Case) (fails []vstat.Failure) {
 		}
 	}
 	st.Class("crowd-of-right-and-wrong-credentials")
+	// the transport finishes dials it began for the crowd in the background (a request may have been served over another
+	// connection meanwhile): the history that follows compares activity before and after each request, so wait until
+	// nothing moves any more
+	for i, prev := 0, e.snapshot(px); i < 40; i++ {
+		time.Sleep(25 * time.Millisecond)
+		cur := e.snapshot(px)
+		if cur == prev && i >= 2 {
+			break
+		}
+		prev = cur
+	}
 	return fails
 }
 
@@ -687,6 +700,19 @@ func runC04(c C04Case) (fails []vstat.Failure) {
 				pa := m.Get("Proxy-Authenticate")
 				if len(pa) == 0 || !strings.HasPrefix(strings.ToLower(pa[0]), "basic") {
 					fails = append(fails, vstat.Failf("C04:407-without-challenge", "request %d: 407 without a Proxy-Authenticate: Basic challenge (fields %v)", i, m.Fields))
+				}
+			}
+			if c.Crowd > 0 && before != after && before.bytes == after.bytes {
+				// a dial the transport had begun for the crowd may be logged only now; it names the crowd's own host
+				late := 0
+				for _, ev := range px.Dials.Events()[before.dials:] {
+					if strings.HasPrefix(ev.Addr, c04CrowdHost+":") {
+						late++
+					}
+				}
+				if late == after.dials-before.dials {
+					st.Class("late-dial-of-the-crowd")
+					after = before
 				}
 			}
 			if before != after {
